@@ -40,6 +40,73 @@ type c15Clone struct {
 	// fields (among Fields) configured with an EMPTY value: non-nil pointer to "" / false / 0 / empty slice,
 	// empty non-nil slice or map.  A non-nil pointer to an empty string is a configured value like any other.
 	Empty []string `json:"empty,omitempty"`
+	// text fields (among Fields) that hold a template which CANNOT be rendered against the context's data: one that
+	// parses and FAILS WHILE IT IS BEING EXECUTED, after it has already produced output, or one that does not parse
+	// (c15BadTemplates[BadKind]).  Rendering is lenient: such a text is kept as it is — and every OTHER field of the
+	// clone (and of every clone made afterwards) holds exactly what it holds without that neighbour.
+	Bad     []string `json:"bad,omitempty"`
+	BadKind int      `json:"badKind,omitempty"`
+	// > 0: the clone is PRECEDED, in the same context, by the clone of ANOTHER operation (a log operation) whose
+	// message is the unrenderable template c15BadTemplates[Pre-1]
+	Pre int `json:"pre,omitempty"`
+	// EQUIVALENT ENTRY POINT: the wrapping value (OpSpec / ActionSpec / ChildActions — their methods have value
+	// receivers, so a pointer to one is an Action too) is cloned through a POINTER to it: (&spec).CloneWith(ctx)
+	// yields what spec.CloneWith(ctx) yields
+	Ptr bool `json:"ptr,omitempty"`
+}
+
+// c15PtrTo: a pointer to (a copy of) the wrapping value; other actions as they are.
+func c15PtrTo(a pipeline.Action) pipeline.Action {
+	switch x := a.(type) {
+	case pipeline.OpSpec:
+		return &x
+	case pipeline.ActionSpec:
+		return &x
+	case pipeline.ChildActions:
+		return &x
+	}
+	return a
+}
+
+// c15Deref: the wrapping value behind a pointer to it; other actions as they are.
+func c15Deref(a pipeline.Action) pipeline.Action {
+	switch x := a.(type) {
+	case *pipeline.OpSpec:
+		if x != nil {
+			return *x
+		}
+	case *pipeline.ActionSpec:
+		if x != nil {
+			return *x
+		}
+	case *pipeline.ChildActions:
+		if x != nil {
+			return *x
+		}
+	}
+	return a
+}
+
+// c15BadTemplates: texts that look like templates and cannot be rendered against the data of a clone case
+// (x: a text, other.y: a number): they parse and fail while being EXECUTED, after having produced output (a field
+// of a scalar, an associated template nobody defined, sprig's fail, an index of something that is not there), or
+// they do not parse at all.  None of them holds the micro-fragment `{{ .x }}` the model renders.
+var c15BadTemplates = []string{
+	"deploy-{{ .other.y.name }}",
+	"{{ .other.y }}:{{ .x.y.z }}-tail",
+	"lead {{ template \"nope\" }} trail",
+	"a{{ fail \"boom\" }}b",
+	"pre {{ index .nokey 3 }}",
+	"0123456789012345678901234567890123456789012345678901234567890123456789-{{ .other.y.q }}", // longer than a small buffer
+	"{{ .other.y }}{{ end }}",
+	"open {{ .other.y",
+}
+
+func c15BadText(k int) string {
+	if k < 0 {
+		k = -k
+	}
+	return c15BadTemplates[k%len(c15BadTemplates)]
 }
 
 type c15Exec struct {
@@ -58,7 +125,7 @@ type c15FE struct {
 
 func init() {
 	register(&Prop{ID: "C15", Run: c15Run,
-		Rule: "operation types are enumerated by reflection from pipeline.OpSpec (recursively through pointed-to types); each is populated by kind (strings, *string, bool, []int, []string, maps, *ValOrRef / *AnyVal / ActionSpec / ChildActions decoded from YAML or built recursively) from a seed, cloned under a real ActionContext and compared field by field (nil/empty identified), bare and wrapped in OpSpec / ActionSpec / ChildActions; template cases put `{{ .x }}` into clone:\"template\" fields; configured-but-empty values (non-nil pointer to \"\" / false / 0 / empty slice, empty non-nil slices and maps) are populated per field, alone and next to all other fields; value-or-reference values are populated in both kinds and in the odd forms too (an immediate value that also has Ref set, a reference that also has Val set, an empty reference); template text also goes into text fields that are NOT tagged (string, *string, []string elements, *[]string elements, *ValOrRef: the clone may hold them verbatim or rendered) and every templated value is cloned twice under different data with a deep snapshot of the original (slice elements included) compared before/after; exec cases run data-only specs (set, patch, template, log, abort, define+call, loop, forEach) as original and clone on equal data and as forEach bodies; vor cases take one value-or-reference — decoded scalar, decoded {ref: …}, composite literal with Ref AND Val, decoded reference with Val set; Ref / Val from {empty, path of a leaf, missing path, `{{ .x }}` with .x possibly empty} (small scope exhaustively, then random) — on its own ((*ValOrRef).CloneWith) and as every *ValOrRef field of every operation type found by reflection, bare / in OpSpec / in ActionSpec: the clone is compared field by field (the unexported kind flag included; reflect.DeepEqual with the original when template-free), resolved on data where the path named by Ref holds something else than Val, and executed (export: which files are written with what content, log lines; forEach over a query: log lines) against the original; feach cases run a forEach over 2-3 items whose body (log, set, template, patch, exec `true` with an argument list, in operations or in a steps child) uses `{{ .<variable> }}` and compare outcome, data and logs with a fresh copy of the body cloned+executed per item, and with a second run of the same forEach value. Non-trivial: at least one field populated. distinct = distinct canonical case JSON.",
+		Rule: "operation types are enumerated by reflection from pipeline.OpSpec (recursively through pointed-to types); each is populated by kind (strings, *string, bool, []int, []string, maps, *ValOrRef / *AnyVal / ActionSpec / ChildActions decoded from YAML or built recursively) from a seed, cloned under a real ActionContext and compared field by field (nil/empty identified), bare and wrapped in OpSpec / ActionSpec / ChildActions — the wrapping value cloned directly and through a POINTER to it ((&spec).CloneWith(ctx), an equivalent entry point) —; slices are populated with 0..2 and with 3, 5, 6, 7, 9 elements; template cases put `{{ .x }}` into clone:\"template\" fields; configured-but-empty values (non-nil pointer to \"\" / false / 0 / empty slice, empty non-nil slices and maps) are populated per field, alone and next to all other fields; value-or-reference values are populated in both kinds and in the odd forms too (an immediate value that also has Ref set, a reference that also has Val set, an empty reference); template text also goes into text fields that are NOT tagged (string, *string, []string elements, *[]string elements, *ValOrRef: the clone may hold them verbatim or rendered) and every templated value is cloned twice under different data with a deep snapshot of the original (slice elements included) compared before/after, and the FIRST clone compared with what it was before the second one was made; FAILURE THEN SUCCESS: per text field of every operation type (and at random) the field holds a template that CANNOT be rendered — it parses and fails while it is being executed, after it has produced output (field of a scalar, undefined associated template, sprig's fail, index of a missing key; short and longer than 64 bytes), or it does not parse — while the other template fields hold templates that render, and/or the clone is preceded, in the same context, by the clone of another operation whose template cannot be rendered: the unrenderable text is kept as it is, every other field holds exactly the rendered text, and a plain log operation cloned afterwards holds its rendered message; exec cases run data-only specs (set, patch, template, log, abort, define+call, loop, forEach) as original and clone on equal data (the clone first: the original must still be what it was after the clone ran) and as forEach bodies; vor cases take one value-or-reference — decoded scalar, decoded {ref: …}, composite literal with Ref AND Val, decoded reference with Val set; Ref / Val from {empty, path of a leaf, missing path, `{{ .x }}` with .x possibly empty} (small scope exhaustively, then random) — on its own ((*ValOrRef).CloneWith) and as every *ValOrRef field of every operation type found by reflection, bare / in OpSpec / in ActionSpec: the clone is compared field by field (the unexported kind flag included; reflect.DeepEqual with the original when template-free), resolved on data where the path named by Ref holds something else than Val, and executed (export: which files are written with what content, log lines; forEach over a query: log lines) against the original; feach cases run a forEach over 2-3 items whose body (log, set, template, patch, exec `true` with an argument list, in operations or in a steps child) uses `{{ .<variable> }}` and compare outcome, data and logs with a fresh copy of the body cloned+executed per item, and with a second run of the same forEach value. Non-trivial: at least one field populated. distinct = distinct canonical case JSON.",
 		Assumptions: []string{"text/template + sprig is an external library: the model renders only the micro-fragment `{{ .x }}`; template-free = no `{{` … `}}` pair in any string (possiblyTemplate is false)",
 			"helpers safeRenderStrPointer/safeRenderStrSlice/safeCopyIntSlice/safeCloneValOrRef are classified by name by the extractor; their behaviour is validated only by this harness",
 			"operations with OS effects (exec, templateFile, import, export, env, ext, html2dom) are cloned and compared but not executed — except exec of the program `true` (no output, no files) in feach cases and export in vor cases (into a scratch directory under .work, which is also the working directory while the operation runs)"}})
@@ -376,6 +443,9 @@ func c15Populate(v reflect.Value, r *rand.Rand, depth int, tplText string) {
 		v.Set(p)
 	case reflect.Slice:
 		n := r.Intn(3) // empty slices too
+		if depth == 0 && r.Intn(4) == 0 {
+			n = pick(r, []int{3, 5, 6, 7, 9}) // lengths at which append has / has no spare capacity
+		}
 		// a list of texts that receives template text: at least one element holds it (the choices
 		// depend only on WHETHER there is template text, so that the template / rendered builds agree)
 		tplElems := tplText != "" && t.Elem().Kind() == reflect.String
@@ -523,6 +593,10 @@ func c15Build(p c15Clone, opT reflect.Type, tplText string) reflect.Value {
 		if c15In(p.Tpl, f.Name) && c15Texty(f.Type) {
 			txt = tplText
 		}
+		if c15In(p.Bad, f.Name) && c15Texty(f.Type) {
+			// the same text in every build of the case (original, expected clone): it is kept as it is
+			txt = c15BadText(p.BadKind)
+		}
 		c15Populate(op.Elem().Field(i), r, 0, txt)
 	}
 	return op
@@ -552,6 +626,9 @@ func c15Run(c *Ctx) {
 		}
 		for _, w := range wraps {
 			c.Do("clone", c15Clone{Op: n, Fields: all, Seed: r.Int63n(1 << 30), X: "V", Wrap: w})
+			if w != "" {
+				c.Do("clone", c15Clone{Op: n, Fields: all, Seed: r.Int63n(1 << 30), Tpl: tagged, X: "V", Wrap: w, Ptr: true})
+			}
 		}
 		for _, f := range all {
 			c.Do("clone", c15Clone{Op: n, Fields: []string{f}, Seed: r.Int63n(1 << 30), X: "V"})
@@ -578,29 +655,56 @@ func c15Run(c *Ctx) {
 		if len(texty) > 0 && len(tagged)+len(texty) > 1 {
 			c.Do("clone", c15Clone{Op: n, Fields: all, Seed: r.Int63n(1 << 30), Tpl: append(append([]string{}, tagged...), texty...), X: "W", Wrap: pick(r, wraps)})
 		}
+		// FAILURE, THEN SUCCESS: one text field holds a template that cannot be rendered (it fails while it is being
+		// executed, after it has produced output, or it does not parse), all the other template fields hold templates
+		// that render; and the clone of an operation preceded by the clone of ANOTHER operation whose template
+		// cannot be rendered
+		textFields := append(append([]string{}, tagged...), texty...)
+		for _, f := range textFields {
+			for _, k := range []int{0, 1 + r.Intn(len(c15BadTemplates)-1)} {
+				c.Do("clone", c15Clone{Op: n, Fields: all, Seed: r.Int63n(1 << 30), Tpl: tagged, Bad: []string{f}, BadKind: k,
+					X: pick(r, []string{"V", "a.b", "7"}), Wrap: pick(r, wraps)})
+			}
+		}
+		if len(tagged) > 0 {
+			c.Do("clone", c15Clone{Op: n, Fields: all, Seed: r.Int63n(1 << 30), Tpl: tagged, Pre: 1 + r.Intn(len(c15BadTemplates)), X: "V", Wrap: pick(r, wraps)})
+		}
 	}
 	for i := 0; i < c.N(1500); i++ {
 		c.Tick()
 		n := pick(r, names)
 		t := types[n]
-		var fs, tpl, empty []string
+		var fs, tpl, empty, bad []string
+		// about one case in four: some text fields hold a template that cannot be rendered
+		withBad := r.Intn(4) == 0
 		for j := 0; j < t.NumField(); j++ {
 			if r.Intn(4) != 0 {
 				fs = append(fs, t.Field(j).Name)
 				switch {
 				case t.Field(j).Tag.Get("clone") == "template":
-					if r.Intn(3) == 0 {
+					if r.Intn(3) == 0 || withBad {
 						tpl = append(tpl, t.Field(j).Name)
 					}
 				case c15Texty(t.Field(j).Type) && r.Intn(5) == 0:
 					tpl = append(tpl, t.Field(j).Name)
 				}
-				if c15CanBeEmpty(t.Field(j).Type) && !c15In(tpl, t.Field(j).Name) && r.Intn(6) == 0 {
+				if withBad && c15Texty(t.Field(j).Type) && r.Intn(3) == 0 {
+					bad = append(bad, t.Field(j).Name)
+				}
+				if c15CanBeEmpty(t.Field(j).Type) && !c15In(tpl, t.Field(j).Name) && !c15In(bad, t.Field(j).Name) && r.Intn(6) == 0 {
 					empty = append(empty, t.Field(j).Name)
 				}
 			}
 		}
-		c.Do("clone", c15Clone{Op: n, Fields: fs, Seed: r.Int63n(1 << 30), Tpl: tpl, Empty: empty, X: pick(r, []string{"V", "a.b", "7", ""}), Wrap: pick(r, wraps)})
+		cs := c15Clone{Op: n, Fields: fs, Seed: r.Int63n(1 << 30), Tpl: tpl, Empty: empty, X: pick(r, []string{"V", "a.b", "7", ""}), Wrap: pick(r, wraps)}
+		cs.Ptr = cs.Wrap != "" && r.Intn(3) == 0
+		if withBad {
+			cs.Bad, cs.BadKind = bad, r.Intn(len(c15BadTemplates))
+			if len(bad) == 0 || r.Intn(3) == 0 {
+				cs.Pre = 1 + r.Intn(len(c15BadTemplates))
+			}
+		}
+		c.Do("clone", cs)
 	}
 	// value-or-reference fields in every form (see c15_vor.go)
 	for _, p := range c15VoRCases(r, c.N(400)) {
@@ -969,19 +1073,60 @@ func c15EvalClone(c *Ctx, p c15Clone) {
 	if len(p.Empty) > 0 {
 		c.Dist("clone:with-empty-configured-value")
 	}
+	unrenderable := p.Pre > 0
+	for _, f := range p.Bad {
+		if sf, has := opT.FieldByName(f); has && c15In(p.Fields, f) && c15Texty(sf.Type) && !(c15In(p.Empty, f) && c15CanBeEmpty(sf.Type)) {
+			unrenderable = true
+		}
+	}
+	if unrenderable {
+		c.Dist("clone:next-to-a-template-that-cannot-be-rendered")
+	}
+	if p.Pre > 0 {
+		c.Dist("clone:preceded-by-a-clone-whose-template-cannot-be-rendered")
+	}
 	orig := c15Wrap(c15Build(p, opT, tplText), p.Op, p.Wrap)
+	valT := reflect.TypeOf(orig) // the type of the action, and of its clone
+	if p.Ptr && p.Wrap != "" {
+		orig = c15PtrTo(orig)
+		c.Dist("clone:through-a-pointer-to-the-value")
+	}
 	// deep snapshot of the original (pointers followed, every slice element and map entry included)
 	before := c15Dump(reflect.ValueOf(orig), 0)
 	cloneUnder := func(x string) (clone pipeline.Action, out, txt string) {
 		data := dom.Builder().Container()
 		data.AddValue("x", dom.LeafNode(x))
 		data.AddValueAt("other.y", dom.LeafNode(1))
+		var preMsg, probeMsg string
 		out, txt = guard(func() {
 			_ = c15WithCtx(data, nil, func(ctx pipeline.ActionContext) error {
+				if p.Pre > 0 {
+					// ANOTHER operation, cloned first: its template fails half way through (or does not parse)
+					if pc, ok := (&pipeline.LogOp{Message: c15BadText(p.Pre - 1)}).CloneWith(ctx).(*pipeline.LogOp); ok && pc != nil {
+						preMsg = pc.Message
+					}
+				}
 				clone = orig.CloneWith(ctx)
+				if unrenderable {
+					// and one more clone afterwards, of a plain log operation: whatever failed to render before it,
+					// its message is the text rendered against the context's data
+					if pc, ok := (&pipeline.LogOp{Message: "probe-{{ .x }}"}).CloneWith(ctx).(*pipeline.LogOp); ok && pc != nil {
+						probeMsg = pc.Message
+					}
+				}
 				return nil
 			})
 		})
+		if out == "ok" {
+			if p.Pre > 0 {
+				c.Direct("template-that-cannot-be-rendered-is-kept-as-it-is", preMsg == c15BadText(p.Pre-1),
+					map[string]any{"template": c15BadText(p.Pre - 1), "clone": preMsg})
+			}
+			if unrenderable {
+				c.Direct("clone-made-after-a-failed-rendering-holds-rendered-text", probeMsg == "probe-"+x,
+					map[string]any{"x": x, "template": "probe-{{ .x }}", "expected": "probe-" + x, "clone": probeMsg})
+			}
+		}
 		return
 	}
 	// what a clone under x must hold: the same construction with the rendered text in place of the
@@ -1010,9 +1155,11 @@ func c15EvalClone(c *Ctx, p c15Clone) {
 	if !c.Direct("clone-not-nil", clone != nil, nil) {
 		return
 	}
-	c.Direct("clone-same-type", reflect.TypeOf(clone) == reflect.TypeOf(orig), fmt.Sprintf("%T vs %T", clone, orig))
+	c.Direct("clone-same-type", reflect.TypeOf(clone) == valT || reflect.TypeOf(clone) == reflect.TypeOf(orig), fmt.Sprintf("%T vs %T", clone, orig))
+	clone = c15Deref(clone)
+	firstClone := c15Dump(reflect.ValueOf(clone), 0)
 	// field by field on the operation itself so that the failing field is named
-	if reflect.TypeOf(clone) == reflect.TypeOf(orig) {
+	if reflect.TypeOf(clone) == valT {
 		expected := expectedFor(clone, p.X)
 		ev, cv := c15Unwrap(expected, p.Op, p.Wrap), c15Unwrap(clone, p.Op, p.Wrap)
 		if ev.IsValid() && cv.IsValid() && ev.Kind() == reflect.Ptr && cv.Type() == ev.Type() && !ev.IsNil() && !cv.IsNil() && ev.Elem().Kind() == reflect.Struct {
@@ -1022,6 +1169,10 @@ func c15EvalClone(c *Ctx, p c15Clone) {
 				switch {
 				case c15In(p.Empty, opT.Field(i).Name):
 					name = "clone-carries-over-empty-configured-value"
+				case c15In(p.Bad, opT.Field(i).Name) && c15Texty(opT.Field(i).Type):
+					name = "template-that-cannot-be-rendered-is-kept-as-it-is"
+				case unrenderable && opT.Field(i).Tag.Get("clone") == "template" && tplText != "" && c15In(p.Tpl, opT.Field(i).Name):
+					name = "clone-holds-rendered-text(next to a template that cannot be rendered)"
 				case tplText != "" && c15In(p.Tpl, opT.Field(i).Name) && opT.Field(i).Tag.Get("clone") == "template":
 					name = "clone-holds-rendered-text"
 				case tplText != "" && c15In(p.Tpl, opT.Field(i).Name):
@@ -1033,16 +1184,20 @@ func c15EvalClone(c *Ctx, p c15Clone) {
 		a, b := c15Dump(reflect.ValueOf(expected), 0), c15Dump(reflect.ValueOf(clone), 0)
 		c.Direct("clone-deep-equal(whole value)", a == b, map[string]any{"expected": a, "clone": b})
 	}
-	if tplText != "" {
+	if tplText != "" || unrenderable {
 		// cloning again in a context with other data: the original still holds the template text, so the
 		// second clone holds the text rendered against ITS context (not the first clone's rendering)
 		x2 := p.X + "#2"
 		clone2, out2, txt2 := cloneUnder(x2)
-		if c.Direct("no-panic(second clone)", out2 == "ok" && clone2 != nil, txt2) && reflect.TypeOf(clone2) == reflect.TypeOf(orig) {
+		clone2 = c15Deref(clone2)
+		if c.Direct("no-panic(second clone)", out2 == "ok" && clone2 != nil, txt2) && reflect.TypeOf(clone2) == valT {
 			a, b := c15Dump(reflect.ValueOf(expectedFor(clone2, x2)), 0), c15Dump(reflect.ValueOf(clone2), 0)
 			c.Direct("second-clone-renders-against-its-own-context", a == b, map[string]any{"x": x2, "expected": a, "clone": b})
 			c.Direct("original-untouched-by-clone", before == c15Dump(reflect.ValueOf(orig), 0),
 				map[string]any{"before": before, "after two clones": c15Dump(reflect.ValueOf(orig), 0)})
+			// REPEATED USE: the EARLIER result is still what it was after the later call (a clone owns what it holds)
+			now := c15Dump(reflect.ValueOf(clone), 0)
+			c.Direct("first-clone-untouched-by-second-clone", firstClone == now, map[string]any{"first clone": firstClone, "after the second clone": now})
 		}
 	}
 	if c.searchMode {
@@ -1150,6 +1305,10 @@ func c15EvalExec(c *Ctx, p c15Exec) {
 		map[string]any{"original": before, "clone": c15Dump(reflect.ValueOf(clone), 0)})
 	// the clone first: Do of some operations fills defaults into the value it runs on
 	rc := c15RunAction(p.Data, func(ex pipeline.Executor, _ dom.ContainerBuilder) error { return ex.Execute(clone) })
+	// the clone is an action of its own: running it (operations fill defaults into the value they run on) is not
+	// running the original
+	c.Direct("original-untouched-by-executing-the-clone", before == c15Dump(reflect.ValueOf(action), 0),
+		map[string]any{"before": before, "after the clone ran": c15Dump(reflect.ValueOf(action), 0)})
 	ro := c15RunAction(p.Data, func(ex pipeline.Executor, _ dom.ContainerBuilder) error { return ex.Execute(action) })
 	c.Dist("exec-outcome:" + ro.Out)
 	c.Direct("exec-same-outcome", ro.Out == rc.Out, map[string]any{"original": ro.Out, "clone": rc.Out})
